@@ -92,6 +92,7 @@ static uint64_t hash_rules(YR_RULES* r) {
   Hash64 h;
   for (uint32_t i = 0; i < r->arena->num_buffers; i++) { YR_ARENA_BUFFER* b = &r->arena->buffers[i]; if (b->data && b->used) h.add(b->data, b->used); }
   h.add(r, sizeof(*r));
+  h.add(r->arena, sizeof(*r->arena));      // reference count, buffer table, relocation list head: shared by every scanner of the rule set
   if (r->no_required_strings) h.add(r->no_required_strings, sizeof(YR_BITMASK) * YR_BITMASK_SIZE(r->num_rules));
   return h.h;
 }
@@ -313,6 +314,7 @@ int main(int argc, char** argv) {
     if (c.has("schedule")) { have_replay_script = true; for (size_t k = 0; k < c["schedule"].size(); k++) replay_script.push_back({(int) c["schedule"][k][0].num(), c["schedule"][k][1].num(), (int) c["schedule"][k][2].num()}); }
   }
   sim_detheap_enable();                       // yara's heap addresses become a function of the run alone
+  g_alloc.junk_by_address = true;   // uninitialised memory differs from place to place: a scan that reads it cannot agree with its solo run by accident
   std::vector<Shared> shared = make_shared(seed);
   sim_detheap_mark();
   Shard sh = parse_shard(args);
